@@ -31,7 +31,8 @@ namespace Givaro {
 			return Integer::modin(I, _primes[(size_t)level][(size_t)col]);// (u1-u0)*M01 +u0 mod p0p1, between 0 and p0p1-1
 		}
 		else {
-			return I=residues[(size_t)col];
+			I=residues[(size_t)col];
+			return Integer::modin(I, _primes[0][(size_t)col]); // a left leaf is an unmodified prime: any representative of the residue
 		}
 	}
 
